@@ -63,4 +63,9 @@ def cells(tier):
                 for dn in ("cancel0", "call", "cancel0+flush"):
                     sc = scen(pool(size), REQS[rn] + DISTS[dn] + [[PROBE]], outcomes=["ret", "exc"], ecb="plain", ccb="slow", slow_ids=[0])
                     out.append(cell(f"probe-everywhere s{size} {rn} {dn}", sc, MON))
+    # a shrink issued from user code (worker's last act / end callback) while a freed place is in transit to a spawner
+    for old, new in [(2, 1), (1, 0), (3, 2)]:
+        sc = scen(pool(old), [[A("A", old)], [A("B", 2)], [["set_size", new]]], outcomes=["ret"], ecb="plain", ccb="plain",
+                  inline={"actors": [2], "at": ["w_resume", "ecb"]})
+        out.append(cell(f"inline s{old}->{new} A{old}|B2 resize@w_resume/ecb", sc, MON + ["C15"]))
     return out
